@@ -277,6 +277,56 @@ func (e errMissingDependencies) Format(w fmt.State, c rune) {
 	formatError(e, w, c)
 }
 
+// isMissingDependencies reports whether err, as returned by a constructor
+// or decorator node, means that dig itself could not find the dependencies
+// of a function somewhere below it.
+//
+// Only dig's own wrappers are looked through. An error returned by a
+// user-provided function is never inspected: a constructor may well return
+// an error that it received from another container, and that failure must
+// not be mistaken for an absent optional dependency.
+func isMissingDependencies(err error) bool {
+	for err != nil {
+		switch e := err.(type) {
+		case errMissingDependencies:
+			return true
+		case errArgumentsFailed:
+			err = e.Reason
+		case errParamSingleFailed:
+			err = e.Reason
+		case errParamGroupFailed:
+			err = e.Reason
+		default:
+			// errConstructorFailed, errDecoratorFailed, PanicError, ...
+			return false
+		}
+	}
+	return false
+}
+
+// errDecoratorFailed marks a non-nil error returned by a user-provided
+// decorator, so that it is never mistaken for one of dig's own errors.
+// It adds no context of its own and prints as the error it wraps.
+type errDecoratorFailed struct {
+	Reason error
+}
+
+var _ digError = errDecoratorFailed{}
+
+func (e errDecoratorFailed) Error() string { return e.Reason.Error() }
+
+func (e errDecoratorFailed) Unwrap() error { return e.Reason }
+
+func (e errDecoratorFailed) writeMessage(io.Writer, string) {}
+
+func (e errDecoratorFailed) Format(w fmt.State, c rune) {
+	if w.Flag('+') && c == 'v' {
+		fmt.Fprintf(w, "%+v", e.Reason)
+	} else {
+		fmt.Fprintf(w, "%v", e.Reason)
+	}
+}
+
 // errParamSingleFailed is returned when a paramSingle could not be built.
 type errParamSingleFailed struct {
 	Key    key
